@@ -236,7 +236,7 @@ def check(pid, tier, replay=None):
                     scripts.append(json.loads(line))
     sp = os.path.join(work, "scripts.ndjson")
     vlib.write_ndjson(sp, scripts)
-    rc, out = vlib.run_harness(binary, "TestScripts", {"STORE_SCRIPTS": sp, "STORE_OUT": work, "VERIF_SEED": sd})
+    rc, out = vlib.run_harness(binary, "TestScripts", {"STORE_SCRIPTS": sp, "STORE_OUT": work, "VERIF_SEED": sd}, timeout=3400)
     if rc != 0:
         raise Broken("store harness failed:\n" + out[-3000:])
     summ = json.load(open(os.path.join(work, "summary.json")))
@@ -244,7 +244,7 @@ def check(pid, tier, replay=None):
     # seeded random drivers (cooperative random scheduler, then free-running goroutines)
     rdir = os.path.join(work, "rand")
     os.makedirs(rdir)
-    rc, out = vlib.run_harness(binary, "TestRandom", {"STORE_OUT": rdir, "VERIF_SEED": sd, "STORE_ACCESS": "flat",
+    rc, out = vlib.run_harness(binary, "TestRandom", timeout=3400, env={"STORE_OUT": rdir, "VERIF_SEED": sd, "STORE_ACCESS": "flat",
                                                        "STORE_RUNS": 150 if quick else 3000, "STORE_OPS": 14,
                                                        "STORE_FREE_RUNS": 20 if quick else 300, "STORE_FREE_OPS": 40 if quick else 200,
                                                        "STORE_CORRUPT": 1 if corr_prop else 0})
@@ -256,7 +256,7 @@ def check(pid, tier, replay=None):
         # the hierarchical access has its own refresh paths on which buffers must be released
         hdir = os.path.join(work, "randhier")
         os.makedirs(hdir)
-        rc, out = vlib.run_harness(binary, "TestRandom", {"STORE_OUT": hdir, "VERIF_SEED": sd, "STORE_ACCESS": "hier",
+        rc, out = vlib.run_harness(binary, "TestRandom", timeout=3400, env={"STORE_OUT": hdir, "VERIF_SEED": sd, "STORE_ACCESS": "hier",
                                                            "STORE_RUNS": 400 if quick else 6000, "STORE_OPS": 16,
                                                            "STORE_FREE_RUNS": 20 if quick else 300, "STORE_FREE_OPS": 40 if quick else 200})
         if rc != 0:
@@ -266,8 +266,8 @@ def check(pid, tier, replay=None):
         # longer lists them has been written: crash-free persistent runs driven to quiescence
         pdir = os.path.join(work, "persist")
         os.makedirs(pdir)
-        rc, out = vlib.run_harness(binary, "TestCrash", {"STORE_OUT": pdir, "VERIF_SEED": sd, "CRASH_MODE": "live",
-                                                          "CRASH_WORKLOADS": 80 if quick else 1500, "CRASH_OPS_MIN": 10}, timeout=3000)
+        rc, out = vlib.run_harness(binary, "TestCrash", timeout=3400, env={"STORE_OUT": pdir, "VERIF_SEED": sd, "CRASH_MODE": "live",
+                                                          "CRASH_WORKLOADS": 80 if quick else 1500, "CRASH_OPS_MIN": 10})
         if rc != 0:
             raise Broken("persistent live harness failed:\n" + out[-3000:])
         traces.append(os.path.join(pdir, "traces.ndjson"))
